@@ -89,6 +89,7 @@ var checks = map[string]check{
 		Jobs: []job{
 			{Run: "^TestDescriptors$", Quick: 600, QShards: 8, Thor: 6000, TShards: 14},
 			{Run: "^TestCodec$", Quick: 150, QShards: 6, Thor: 1500, TShards: 14},
+			{Run: "^TestTwoTrees$", Quick: 400, QShards: 4, Thor: 6000, TShards: 14},
 			{Run: "^TestGenerated$", Quick: 2, QShards: 6, Thor: 25, TShards: 14},
 		},
 		Rule:   "multi-file IDL models (annotations with repeated keys, comments, constants of every shape, typedef chains across files, same base names) parsed and resolved by the real front end; GetFileDescriptor compared field by field with a descriptor content computed from the model alone; lookups by name/id across includes after RegisterAST; Marshal/Unmarshal identity; generated half: one rapid case = one 2-3 file program generated with go:with_reflection (+0-2 presentation options), compiled with the reflective driver: embedded file descriptors, Go type <-> descriptor identity, lookups across packages through the run-time registry; non-trivial = >=2 files, repeated annotation keys and a typedef chain crossing files (in-process), or >=2 generated packages and >=1 cross-file reference followed through the run-time registry (generated), distinct by program text",
